@@ -456,7 +456,11 @@ func init() {
 				do(s.Src, "")
 			}
 			for _, id := range []string{"C04", "C03", "C02"} {
-				enumSeq(seqSpecs[id], c, do)
+				sp := seqSpecs[id]
+				if c.Quick() {
+					sp.quickLen--
+				}
+				enumSeq(sp, c, do)
 			}
 			if c.Thorough() {
 				enumC01(c, do)
